@@ -47,6 +47,7 @@ FAULTS = [
     # a phase that failed or was cancelled, then the same phase called again on the used object
     [("resolved", 0), S, ("callStart",)], [("timer", "resolve"), S, ("callStart",)], [("cancel", "start"), S, ("callStart",)],
     [("sockDone", 0), S, ("callStart",)], [("reset",), S, S, ("callFinish",)], [("cancel", "finish"), S, ("callFinish",)],
+    [("sockFault", "setsockopt")], [("sockFault", "getpeername")],
 ]
 
 
@@ -84,14 +85,14 @@ def pool(ck: Check, pairs=False):
 
 def sockfault_pool():
     """the TCP connect succeeds but the socket is unusable (setsockopt / getpeername raise OSError): the start phase must fail
-    with a library error and everything - the socket included - must be released.  Not a model event: oracles only."""
+    with a library error and everything - the socket included - must be released."""
     scen = []
     for fault in ("setsockopt", "getpeername"):
         for login in (False, True):
             sk = [("callStart",), ("resolved", 1), S, ("sockFault", fault), ("sockDone", 1), S, S]
-            scen.append((login, sk, "nomodel:sockfault"))
-            scen.append((login, sk + [("callFinish",), S], "nomodel:sockfault"))
-            scen.append((login, sk[:4] + [("force",)] + sk[4:], "nomodel:sockfault"))
+            scen.append((login, sk, "sockfault"))
+            scen.append((login, sk + [("callFinish",), S], "sockfault"))
+            scen.append((login, sk[:4] + [("force",)] + sk[4:], "sockfault"))
     return scen
 
 
